@@ -127,3 +127,34 @@ Example drain_example :
   drain_calls 4 KUni 7 (mkcst (mkkst [1; 2; 3; 4] [5; 6] []) (mkkst [] [] []) false)
   = [AItem 1; AItem 2; AItem 3; AItem 4; AItem 5; AItem 6; AErr].
 Proof. vm_compute. reflexivity. Qed.
+
+(* ---------- Closing and Handoff are two views of one system ---------- *)
+(* per kind, the state of Closing.v is the projection (channel, tasks waiting for a slot, tasks reading
+   their preamble) of the hand-off state of Handoff.v; its two moves are Handoff's TaskSend and AppRecv *)
+From WT.Model Require Import Handoff.
+
+Definition kst_of (s : hst) : kst := mkkst (chan s) (ready s) (waiting s).
+
+Theorem task_send_is_handoff_step cap k c s id p :
+  kof k c = kst_of s -> ready s = id :: p ->
+  match step cap s (TaskSend id) with
+  | Some s' => kof k (task_send cap k c) = kst_of s'
+  | None => task_send cap k c = c
+  end.
+Proof.
+  intros H R. unfold task_send. rewrite H. cbn [kst_of kparked kchan kreading]. rewrite R.
+  cbn [step]. rewrite R. cbn [mem]. rewrite N.eqb_refl. cbn [orb andb].
+  destruct (length (chan s) <? cap)%nat.
+  - rewrite kof_with_k. unfold kst_of. cbn [chan ready waiting remove1]. rewrite N.eqb_refl. reflexivity.
+  - reflexivity.
+Qed.
+
+Theorem accept_is_handoff_step cap k c s id r :
+  kof k c = kst_of s -> chan s = id :: r ->
+  snd (accept k c) = AItem id /\
+  exists s', step cap s AppRecv = Some s' /\ kof k (fst (accept k c)) = kst_of s'.
+Proof.
+  intros H C. unfold accept. rewrite H. cbn [kst_of kchan kparked kreading]. rewrite C. cbn [fst snd].
+  split; [reflexivity|]. cbn [step]. rewrite C. eexists. split; [reflexivity|].
+  rewrite kof_with_k. reflexivity.
+Qed.
